@@ -63,9 +63,11 @@ def plan(tier):
     ref = {_key(op): a for op, a in zip(ops, r1)}
     items = [{'kind': 'gradmode', 'ref': ref}]
     roots = [['construct', k] for k in purity.ORDER] + [['load', n] for n in purity.LOADS]
-    for a in roots:
-        for b in roots:
-            items.append({'kind': 'hist', 'root': [a, b], 'depth': depth(tier), 'ref': ref})
+    for ia, a in enumerate(roots):
+        for b in roots[ia:]:
+            # [a, b] and [b, a] reach the same state (same cache contents, same live set): one root per unordered pair;
+            # the order of constructions itself is exercised by the depth-3 extensions and the schedule harnesses
+            items.append({'kind': 'hist', 'root': [a, b] if (ia % 2 == 0) else [b, a], 'depth': depth(tier), 'ref': ref})
     calls = [op for op in ops if op[0] == 'call']
     for i in range(0, len(calls)):
         items.append({'kind': 'pairs', 'first': calls[i], 'seconds': calls, 'ref': ref})
@@ -139,6 +141,9 @@ def _step(env, op, ref, res, history, tags):
     if op[0] == 'call':
         if got['args_before'] != got['args_after']:
             res.violation('history_purity', cfg, {'kind': 'I1_argument_mutated'}, tags)
+            ok = False
+        if isinstance(got['grads'], list) and 'second_backward_through_the_same_graph_differs' in got['grads']:
+            res.violation('history_purity', cfg, {'kind': 'second_backward_through_the_same_graph_differs'}, tags)
             ok = False
         for fld in ('outputs', 'grads'):
             if got[fld] != want[fld]:
